@@ -4,7 +4,7 @@
    reading of those statements (Exit<S>() = OnExit of the current state object, Enter<T>() = new T + its OnEntry). *)
 From Coq Require Import String List Bool Arith.
 From KV Require Import Lib.TableDef Model.TTable Model.CsShape Spec.TableInterp Gen.CsTmpl Model.CsSM
-                       Proofs.TTableProofs Proofs.SmlProofs Proofs.CsProofs.
+                       Proofs.TTableProofs Proofs.SmlProofs Proofs.CsProofs Model.DeclShape Gen.DeclTmpl Model.Decls Proofs.DeclProofs.
 Import ListNotations.
 Open Scope string_scope.
 
@@ -36,26 +36,19 @@ Theorem C10_state_classes : forall t, forallb row_ok t = true -> forall s, In s 
 Proof. intros t H s. split; [apply cs_state_classes|intro Hs; apply cs_classes_nodup_states; assumption]. Qed.
 Print Assumptions C10_state_classes.
 
-(* FULL STATEMENT: the context interface declares every guard, action and entry/exit hook the handlers call exactly once
-   with the event's declared parameters.
-   PROVED (partial): every guard / (action, event) signature / state whose hook a handler calls is a member of the
-   duplicate-free element list over which the context interface's per-element block iterates (guards, actionsignatures,
-   states).  MISSING: a model of TEMPLATEContext.cs's blocks and of the C# member declarations; that each list element
-   becomes exactly one declaration with the event class as parameter type is observed on the real file by the check. *)
-Theorem C10_context_decls_partial : forall t, forallb row_ok t = true ->
-  (forall r, In r t ->
-     In (r_src r) (states t) /\
-     (forall n, opt (r_next r) = Some n -> In n (states t)) /\
-     (forall g, opt (r_guard r) = Some g -> In g (guards t)) /\
-     (forall a, opt (r_act r) = Some a -> In (a, r_ev r) (actionsignatures t))) /\
-  NoDup (states t) /\ NoDup (guards t) /\ NoDup (actionsignatures t).
-Proof.
-  intros t H. split.
-  - intros r Hr. destruct (sml_refs_declared t H r Hr) as (A & _ & B & C & D). repeat split; auto.
-    intros a Ha. apply D. assumption.
-  - destruct (sml_decl_lists_nodup t) as (A & _ & B & _ & C). auto.
-Qed.
-Print Assumptions C10_context_decls_partial.
+(* The context interface declares every guard, (action, event) signature and entry/exit hook the handlers call exactly
+   once, the action taking the event class as its parameter; the event classes (with their members), the public
+   Is<State>() / Trigger<Event>(parameters of the event) methods, the state enumeration, the base class's empty virtual
+   handlers, the dispatch halves of the event classes and the state classes are each declared exactly once too --
+   (declaration kind, name, parameter list) triples of [decls_file], which expands the declaration lines that
+   translator/decltmpl.py finds inside the per-element blocks of TEMPLATEContext.cs / TEMPLATEStateMachine.cs /
+   TEMPLATEInternals.cs (Gen/DeclTmpl.v) over the element lists, for every table and every event interface.
+   No C# compiler exists here: member types and C# name lookup are not checked by anything; the check reads the same
+   triples out of the real files by regex. *)
+Theorem C10_context_decls : forall t i, forallb row_ok t = true ->
+  forall f d, In (f, d) (refs_cs t i) -> dcount (decls_file f t i) d = 1.
+Proof. exact cs_context_decls. Qed.
+Print Assumptions C10_context_decls.
 
 Definition ex_table : table :=
   [mkRow "SA" "EvX" "SB" "OnA" "GuardG"; mkRow "SA" "EvX" "SC" "OnB" "None"; mkRow "SB" "EvX" "" "OnB" "GuardG"].
@@ -68,6 +61,14 @@ Example C10_handlers_nonvacuous :
     ([CGuard "GuardG" "EvX"; CExit "SA" "EvX"; CAction "OnB" "EvX"; CEntry "SC" "EvX"], "SC", 1).
 Proof. vm_compute. split; reflexivity. Qed.
 Print Assumptions C10_handlers_nonvacuous.
+
+Example C10_context_decls_nonvacuous :
+  In (FCsContext, (KCsAction, "OnB", ["EvX"])) (refs_cs ex_table [("EvX", ["int m0"])]) /\
+  In (FCsInternals, (KCsStateClass, "SC", [])) (refs_cs ex_table [("EvX", ["int m0"])]) /\
+  dcount (decls_file FCsContext ex_table [("EvX", ["int m0"])]) (KCsAction, "OnB", ["EvX"]) = 1 /\
+  dcount (decls_file FCsSm ex_table [("EvX", ["int m0"])]) (KCsTrigger, "EvX", ["int m0"]) = 1.
+Proof. vm_compute. repeat split; try reflexivity; repeat (first [left; reflexivity | right]). Qed.
+Print Assumptions C10_context_decls_nonvacuous.
 
 Example C10_state_classes_nonvacuous :
   forallb row_ok ex_table = true /\ cs_classes ex_table = ["SA"; "SB"; "SC"] /\ cs_handlers ex_table "SC" = [].
